@@ -6,7 +6,7 @@
      1 the remote closes, 2 writes fail, 3 flushes complete | 6 _ order ONE poll of next_event (order = visiting order
      of the handshake service's map: digits base 5, key + 1, least significant first; key = 2 * peer + outbound) |
      7 p handle.open_substream | 8 p handle.close_substream | 9 p a send_validation_result | 10 every live Connection
-     task is polled once | 11 ONE handle.next() | 12 p t handle.send_sync_notification(frame t)
+     task is polled once | 11 ONE handle.next() | 12 p t handle.send_sync_notification(frame t) | 13 the user drops the NotificationHandle
    trace = 3, then per operation: result, dump
      result = code, or for 11: 0 | 1 p h | 2 p dir h | 3 p | 4 p err | 5 p t
      dump   = per peer (0, 1): state (5 numbers), in the handshake service (inbound, outbound), handle holds the
@@ -38,8 +38,9 @@ Definition p_op : parser op :=
   | 2 => if okp a then pret (OSubIn a) else pfail
   | 3 => if okp a then pret (OSubOut a) else pfail
   | 4 => if okp a then pret (OFail a) else pfail
-  | 5 => if (b <? 4) && (c <? 60000) && (a <? 4096)
-         then pret (OEnv a (match b with 0 => EFrame c | 1 => EEof | 2 => EWerr | _ => EFlush end)) else pfail
+  | 5 => if (b <? 6) && (c <? 60000) && (a <? 4096)
+         then pret (OEnv a (match b with 0 => EFrame c | 1 => EEof | 2 => EWerr | 3 => EFlush | 4 => EGate | _ => EUngate end))
+         else pfail
   | 6 => pret (OPoll (map (fun k => (k / 2, N.odd k)) (dec_order 8 b)))
   | 7 => if okp a then pret (OUOpen a) else pfail
   | 8 => if okp a then pret (OUClose a) else pfail
@@ -47,6 +48,7 @@ Definition p_op : parser op :=
   | 10 => pret OTasks
   | 11 => pret OUPoll
   | 12 => if okp a && (b <? 60000) then pret (OUSend a b) else pfail
+  | 13 => pret OUDrop
   | _ => pfail
   end.
 
@@ -114,7 +116,8 @@ Definition all_subs (s : st) : list (sub * bool) :=
   map (fun y => (y, false))
       (flat_map sev_subs (sq s) ++
        flat_map (fun p => ent_subs (hin s p) ++ ent_subs (hout s p) ++ ps_subs (ps s p)) PEERS) ++
-  flat_map (fun t => [(t_in t, negb (t_alive t)); (t_out t, negb (t_alive t))]) (tasks s) ++
+  flat_map (fun t => [(t_in t, match t_ph t with PCloseOut _ | PDone => true | _ => false end); (t_out t, negb (t_alive t))])
+           (tasks s) ++
   map (fun y => (y, true)) (grave s).
 
 Fixpoint find_sub (id : N) (l : list (sub * bool)) : option (sub * bool) :=
@@ -129,8 +132,8 @@ Definition enc_car (l : list (sub * bool)) (id : N) : list N :=
   end.
 
 Definition dump (s : st) (cs : list call) : list N :=
-  flat_map (fun p => enc_ps (ps s p) ++ [b2n (some (hin s p)); b2n (some (hout s p)); b2n (some (hsink s p));
-                                          b2n (some (hval s p))]) PEERS ++
+  flat_map (fun p => enc_ps (ps s p) ++ [b2n (some (hin s p)); b2n (some (hout s p));
+                                          b2n (some (hsink s p) && negb (hdrop s)); b2n (some (hval s p) && negb (hdrop s))]) PEERS ++
   [N.of_nat (length (flat_map (fun p => ent_subs (hin s p) ++ ent_subs (hout s p)) PEERS) + length (ready s));
    N.of_nat (length (tasks s)); N.of_nat (length (filter t_alive (tasks s)));
    N.of_nat (length (pend s)); N.of_nat (length (evq s))] ++
